@@ -35,13 +35,22 @@ func (c *requestContext) ReplyWithError(ctx context.Context, id jsonrpc2.ID, res
 	return nil
 }
 
+// jsonKeepNumbers decodes numbers into json.Number instead of float64, which cannot hold
+// every 64-bit amount (lamports, balances, compute units above 2^53 came back rounded).
+var jsonKeepNumbers = jsoniter.Config{
+	EscapeHTML:             true,
+	SortMapKeys:            true,
+	ValidateJsonRawMessage: true,
+	UseNumber:              true,
+}.Froze()
+
 func toMapAny(v any) (map[string]any, error) {
 	b, err := jsoniter.ConfigCompatibleWithStandardLibrary.Marshal(v)
 	if err != nil {
 		return nil, err
 	}
 	var m map[string]any
-	if err := jsoniter.ConfigCompatibleWithStandardLibrary.Unmarshal(b, &m); err != nil {
+	if err := jsonKeepNumbers.Unmarshal(b, &m); err != nil {
 		return nil, err
 	}
 	return m, nil
